@@ -613,10 +613,32 @@ func rulesC16(w *World, r *Report) {
 					facts = append(facts, "the return true at "+w.instrPos(ret)+" is not preceded by 'key absent → insert key' on the visited map")
 				}
 			}
+			// the mark must stay: an entry deleted from (or a clear of) a map the extractor
+			// uses as its visited set lets the walk enter the same type again
+			for _, bb := range fn.Blocks {
+				for _, in := range bb.Instrs {
+					c, isC := in.(*ssa.Call)
+					if !isC {
+						continue
+					}
+					bi, isB := c.Call.Value.(*ssa.Builtin)
+					if !isB || (bi.Name() != "delete" && bi.Name() != "clear") || len(c.Call.Args) == 0 {
+						continue
+					}
+					for _, b2 := range fn.Blocks {
+						for _, i2 := range b2.Instrs {
+							if lk, isL := i2.(*ssa.Lookup); isL && lk.CommaOk && (sameCell(c.Call.Args[0], lk.X) || f.term(c.Call.Args[0]).Key() == f.term(lk.X).Key()) {
+								ok = false
+								facts = append(facts, bi.Name()+" on the visited map at "+w.instrPos(c)+": the mark that ends the walk on a recursive type is removed again")
+							}
+						}
+					}
+				}
+			}
 			if len(facts) == 0 {
 				facts = append(facts, "returns true only after inserting the key it found absent (visited-by-type-name cut-off)")
 			}
-			r.add("C16.R1 recursion has a visited cut-off", fnName(fn)+" · extractor inserts what it tests", w.pos(fn.Pos()), ok, strings.Join(facts, "; "))
+			r.add("C16.R1 recursion has a visited cut-off", fnName(fn)+" · extractor inserts what it tests", w.pos(fn.Pos()), ok, uniqJoin(facts))
 		}
 	}
 	r.floor("C16.R1 recursion obligations", nR, 6)
@@ -720,6 +742,10 @@ func rulesC16(w *World, r *Report) {
 	}
 	r.floor("C16.R3 nameMap updates", nP, 3)
 	w.ruleExtractionStateless(r, "C16.R5 extraction is a function of its argument")
+	if ev != nil {
+		w.ruleEmptyContainersDescended(r, "C16.R2 absent containers are descended by type", ev)
+	}
+	w.ruleTypeWalkDescends(r, "C16.R2 the type walk descends every container type")
 }
 
 // ruleWalkVisitsAll: every loop of the value walk that recurses leaves only
@@ -899,4 +925,16 @@ func (w *World) ruleDecodedBytesFresh(r *Report, rule string) {
 		}
 	}
 	r.floor(rule, n, 1)
+}
+
+func uniqJoin(xs []string) string {
+	seen := map[string]bool{}
+	var out []string
+	for _, x := range xs {
+		if !seen[x] {
+			seen[x] = true
+			out = append(out, x)
+		}
+	}
+	return strings.Join(out, "; ")
 }
